@@ -212,6 +212,16 @@ func (p *Program) JSON() N {
 type printer struct {
 	sb  strings.Builder
 	ind int
+	// inside a namespace some fixture classes are spelled like classes of the global namespace (the local
+	// class shadows the global one for unqualified names): spelled maps the model's name to that spelling
+	spelled map[string]string
+}
+
+func (p *printer) cls(n string) string {
+	if s, ok := p.spelled[n]; ok {
+		return s
+	}
+	return n
 }
 
 func (p *printer) line(f string, a ...any) {
@@ -386,7 +396,7 @@ func (p *printer) stmt(s N) {
 			p.line("return %s;", Expr(e))
 		}
 	case "throw":
-		p.line("throw new %s(%s);", s["cls"], phpStr(s["msg"].(string)))
+		p.line("throw new %s(%s);", p.cls(s["cls"].(string)), phpStr(s["msg"].(string)))
 	case "rethrow":
 		p.line("throw $%s;", s["n"])
 	case "static":
@@ -412,7 +422,7 @@ func (p *printer) stmt(s N) {
 				if t == "Throwable" || t == "Exception" {
 					t = "\\" + t
 				}
-				ts = append(ts, t)
+				ts = append(ts, p.cls(t))
 			}
 			p.line("} catch (%s $%s) {", strings.Join(ts, " | "), m["var"])
 			p.blockOf(m["body"])
@@ -432,6 +442,9 @@ func (p *Program) Source(ns string) string {
 	pr := &printer{}
 	if ns != "" {
 		pr.line("namespace %s;", ns)
+		if _, ok := p.Classes["ErrB"]; ok {
+			pr.spelled = map[string]string{"ErrB": "RuntimeException"}
+		}
 	}
 	for _, i := range p.Ifaces {
 		if len(i.Ext) > 0 {
@@ -467,7 +480,7 @@ func (p *Program) Source(ns string) string {
 		if len(c.Impl) > 0 {
 			im = " implements " + strings.Join(c.Impl, ", ")
 		}
-		pr.line("class %s extends %s%s {}", n, ext, im)
+		pr.line("class %s extends %s%s {}", pr.cls(n), pr.cls(ext), im)
 	}
 	for _, n := range names {
 		emit(n)
